@@ -31,11 +31,130 @@ type rq struct {
 
 type key struct{}
 
+// delayingLogger holds back the first Warn call after arm() for a while (a slow log sink); it never looks at its arguments.
+type delayingLogger struct{ armed int32 }
+
+func (l *delayingLogger) arm()                 { atomic.StoreInt32(&l.armed, 1) }
+func (l *delayingLogger) Debug(string, ...any) {}
+func (l *delayingLogger) Info(string, ...any)  {}
+func (l *delayingLogger) Error(string, ...any) {}
+func (l *delayingLogger) Warn(string, ...any) {
+	if atomic.CompareAndSwapInt32(&l.armed, 1, 0) {
+		time.Sleep(30 * time.Millisecond)
+	}
+}
+
+// late (C12, C05): a request arrives just after the fallback period and is slow inside the breaker (its log line takes
+// 30 ms to write). Meanwhile other requests start the recovery, one of them is admitted 60% into it and fails: the breaker
+// trips again. Whenever the slow request gets its turn, it arrived before that trip: once everything has returned and the
+// clock has not moved since the trip, the breaker reads tripped and the fallback period has its full length ahead.
+func late(rounds int) (failures int) {
+	fail := func(f string, a ...interface{}) {
+		failures++
+		if failures <= 5 {
+			fmt.Printf("C12-STRESS-FAIL "+f+"\n", a...)
+		}
+	}
+	for round := 0; round < rounds && failures < 3; round++ {
+		unfreeze := clock.Freeze(time.Date(2024, 5, 1, 0, 0, 0, round, time.UTC))
+		entered := make(chan *rq, 64)
+		next := http.HandlerFunc(func(w http.ResponseWriter, r *http.Request) {
+			q := r.Context().Value(key{}).(*rq)
+			entered <- q
+			w.WriteHeader(<-q.release)
+		})
+		fallback := http.HandlerFunc(func(w http.ResponseWriter, r *http.Request) {
+			atomic.StoreInt32(&r.Context().Value(key{}).(*rq).fell, 1)
+			w.WriteHeader(http.StatusServiceUnavailable)
+		})
+		lg := &delayingLogger{}
+		cb, err := cbreaker.New(next, "NetworkErrorRatio() > 0.5", cbreaker.FallbackDuration(10*time.Second),
+			cbreaker.RecoveryDuration(10*time.Second), cbreaker.CheckPeriod(time.Millisecond), cbreaker.Fallback(fallback), cbreaker.Logger(lg))
+		if err != nil {
+			panic(err)
+		}
+		var wg sync.WaitGroup
+		launch := func() *rq {
+			q := &rq{release: make(chan int, 1), done: make(chan struct{})}
+			req := httptest.NewRequest(http.MethodGet, "http://example.com/", nil)
+			req = req.WithContext(context.WithValue(req.Context(), key{}, q))
+			wg.Add(1)
+			go func() {
+				defer wg.Done()
+				cb.ServeHTTP(httptest.NewRecorder(), req)
+				close(q.done)
+			}()
+			return q
+		}
+		arrive := func() *rq {
+			q := launch()
+			select {
+			case <-entered:
+				return q
+			case <-q.done:
+				return nil
+			}
+		}
+		var inflight []*rq
+		q := arrive()
+		if q == nil {
+			fail("round %d: a new breaker refused a request", round)
+			unfreeze.Unfreeze()
+			continue
+		}
+		q.release <- 502
+		wg.Wait()
+		clock.Advance(10*time.Second + time.Millisecond)
+		lg.arm()
+		slow := launch() // just past the fallback period, slow inside the breaker
+		time.Sleep(2 * time.Millisecond)
+		if q := arrive(); q != nil { // starts the recovery unless the slow one holds everybody up and does it itself
+			inflight = append(inflight, q)
+		}
+		clock.Advance(6 * time.Second)
+		var admitted *rq
+		for i := 0; i < 8 && admitted == nil; i++ {
+			admitted = arrive()
+		}
+		if admitted != nil {
+			admitted.release <- 502 // fails: the breaker trips again
+			<-admitted.done
+		}
+		select {
+		case <-entered: // the slow request was passed on
+			inflight = append(inflight, slow)
+		case <-slow.done:
+		case <-time.After(60 * time.Second):
+			fail("round %d: the slow request reached no handler within 60s", round)
+		}
+		if admitted != nil {
+			if s := cb.String(); !strings.Contains(s, "tripped") {
+				fail("round %d: the fallback period ended, a request that arrived then was slow inside the breaker (30 ms log sink); meanwhile the recovery began, 6s into it an admitted request failed and the breaker tripped again; with everything returned and the clock unchanged since that trip the breaker reads %s: the new fallback period (10s) was cut short", round, s)
+			}
+		}
+		for _, q := range inflight {
+			q.release <- 200
+		}
+		wg.Wait()
+		unfreeze.Unfreeze()
+	}
+	return failures
+}
+
 func main() {
 	rounds := flag.Int("rounds", 3000, "rounds")
 	racers := flag.Int("racers", 6, "arrivals racing with the re-trip in every round")
+	mode := flag.String("mode", "all", "all | late (only the slow-arrival rounds)")
 	flag.Parse()
-	failures := 0
+	if *mode == "late" {
+		n := late(*rounds)
+		fmt.Printf("cbstress: %d rounds, %d failures\n", *rounds, n)
+		if n > 0 {
+			os.Exit(3)
+		}
+		return
+	}
+	failures := late(*rounds/100 + 5)
 	fail := func(f string, a ...interface{}) {
 		failures++
 		if failures <= 5 {
